@@ -3,7 +3,7 @@ FAMILY_SHARDS["hexenc"] = {"oracle_for": ["C35"]}
 PROPS["C35"] = dict(
     families=["hexenc"],
     label="full for RLE columns (u64, i64, String, Vec<u8>, nullable or not) and bool columns; partial for delta columns "
-          "(the delta round-trip acceptance half is not proved)",
+          "(delta save-then-load proved for every list inside a window that contains 0, is < 2^63 wide and lies in the type's domain: all u64 / Option<u64> lists; for signed lists outside such a window only 'if it loads it holds the same values')",
     level_text="Theorems over a model that mirrors hexane's loader (rle/decoder.rs try_next_segment + validate_after, rle/load.rs "
                "slab item counters, bool.rs BoolLoadIter::finalize, delta/indexed.rs accumulate_run + DeltaColumn::load_with) and "
                "hexane's own varint codec (the leb128 crate readers, which accept over-long encodings, and hexane's writers): for ALL "
